@@ -8,7 +8,8 @@ ASSUMED_MODELS).  What is verified here, on the real source re-read on every run
                            parse_email_addresses, get_body_content, parse_email_message,
                            read_mbox_format_mail
   eml_email_extractor.py   _read_eml_format, read_eml_format_mail
-  msg_email_extractor.py   _parse_single_recipient, _parse_multi_recipients (str form), _looks_like_html (round 7),
+  msg_email_extractor.py   _parse_single_recipient, _parse_multi_recipients (str and list form), _looks_like_html,
+                           _read_ole_string (round 7),
                            read_msg_format_mail (field mapping)
   data_types.py            EmailContent.iterate_supported_attachments
   mime_types.py            is_supported_mime_type (round 7: verified here too, same contract as the C07 pack)
@@ -1196,6 +1197,32 @@ def psr_contract():
     )
 
 
+def ros_contract():
+    """(round 7) _read_ole_string (names and MIME tags of .msg attachments): never raises; "" when the stream cannot be opened / read,
+    otherwise the stream's bytes decoded as UTF-16-LE (undecodable units dropped) without trailing NULs."""
+    def want(c):
+        stream = M.OLE_STREAM(c.args["ole"].t, c.args["storage"].t, c.args["stream_name"].t)
+        return M.RSTRIP_CHARS(M.DEC_IGN(M.OLE_DATA(stream), z3.StringVal("utf-16-le")), z3.StringVal("\x00"))
+
+    def e_text(c):
+        r = c.result
+        if not isinstance(r, VStr):
+            raise M.ShapeUnknown("result is not a str")
+        return z3.Or(r.t == M.EMPTY, r.t == want(c))
+
+    def result_maker(ex, st, ctx):
+        return VStr(z3.String(fresh_name("ole_string")))
+
+    return FnContract(
+        target=f"{MSG}::_read_ole_string",
+        params=[("ole", p_ext("OleFile")), ("storage", p_str()), ("stream_name", p_str())],
+        ensures=[("empty-or-the-UTF-16-LE-text-of-the-stream-without-trailing-NULs", e_text)],
+        raises=[],
+        result_maker=result_maker,
+        note="total; '' | rstrip_NUL(decode_utf16le_ignore(bytes of the stream [storage, name])) (olefile openstream / read: assumed, may raise)",
+    )
+
+
 RCPT_SEP = "[;,]"
 
 
@@ -1550,6 +1577,7 @@ def contracts(reg):
     out = []
     out.append(psr_contract())
     out.append(pmr_contract())
+    out.append(ros_contract())
     try:
         hint_pattern()
         out.append(llh_contract())
@@ -1793,12 +1821,15 @@ ASSUMED_MODELS = [
     "str.encode('utf-8', errors='ignore') total", "bytes.rstrip(b'\\r\\n')", "base64.b64decode (may raise)",
     "re.Pattern.finditer / Match.start / Match.end; re.search / Pattern.search (total)",
     "re.split / Pattern.split on a constant pattern (total, at least one piece; pieces uninterpreted)",
-    "re.compile(p, re.IGNORECASE) == re.compile('(?i)' + p)", "str.lower / str.lstrip (total, uninterpreted functions of the string)",
+    "re.compile(p, re.IGNORECASE) == re.compile('(?i)' + p)",
+    "olefile: ole.openstream([storage, name]) / stream.read() may raise anything, else functions of (file, storage, name) (validated natively "
+    "on a stub by replay check_read_ole_string)", "bytes.decode(cs, errors='ignore') / str.rstrip(<constant chars>) (uninterpreted)", "str.lower / str.lstrip (total, uninterpreted functions of the string)",
     "io.BytesIO(data) / seek / read / getvalue (content and position)",
     "mailparser.parse_from_bytes and the attribute shapes listed in TRUSTED", "msg_parser.MsOxMessage (may raise)",
     "str.strip (uninterpreted; ''.strip() == '')", "str.join over a symbolic sequence: depends only on separator, length and the elements below the length",
     "msg_email_extractor._extract_msg_attachments, _html_to_text: NOT verified, used as deterministic functions (dataflow of "
-    "read_msg_format_mail only)",
+    "read_msg_format_mail only); the verified _read_ole_string is a helper of the unverified _extract_msg_attachments, so its contract "
+    "has no verified caller yet",
     "msg_email_extractor._parse_multi_recipients at the call sites of read_msg_format_mail: the function is verified for a str and for "
     "a list[str] argument (round 7), but a MsOxMessage property is an opaque value there (str or list: msg_parser's business), so the "
     "call sites keep the summarised view -- a deterministic function of the property, which the verified contract implies",
